@@ -8,6 +8,7 @@ pub mod c04;
 pub mod c05;
 pub mod c06;
 pub mod c07;
+pub mod c08;
 #[cfg(feature = "full")]
 pub mod c09;
 #[cfg(feature = "full")]
@@ -19,6 +20,8 @@ pub mod c13;
 pub mod c14;
 pub mod c16;
 pub mod c17;
+#[cfg(feature = "full")]
+pub mod c18;
 
 pub struct Spec {
     pub id: &'static str,
@@ -91,6 +94,14 @@ pub fn all() -> Vec<Spec> {
             exhaustive: false,
             assumptions: COMMON_ASSUMPTIONS,
         },
+        Spec {
+            id: "C08",
+            run: c08::run,
+            level: "exploration",
+            rule: "wire monitor: request metadata, response initial metadata and error-status metadata (ASCII and -bin, repeated keys, byte strings of every length mod 3) with reserved names (te, user-agent, content-type, grpc-status, grpc-message, grpc-message-type) inserted at random positions carrying a USERVAL taint tag, sent through the generated client and server over the in-process transport whose 'network peer' optionally re-pads every -bin value; taps record the request head, response head and trailers. Oracle: every non-reserved entry on the wire under the same key, same ordered values, -bin values canonical unpadded base64; no header under a reserved name carries a taint tag; the handler and the client API see the original bytes whether or not the peer padded. accessors monitor: MetadataMap::from_headers over arbitrary peer headers (valid/invalid/padded base64, reserved names, repeats): iter/keys/values/get/get_bin/get_all/get_all_bin classify every key by its suffix, binary values decode to the original bytes, equality/hash agree between padded peer form and locally built values, into_headers is the inverse. Fingerprint = leg|shape|#reserved per place|peer pads|failure placement (wire) or entry/binary/reserved/repeat classes (accessors). Non-trivial = a reserved name present or a padding peer (wire); a non-empty map (accessors).",
+            exhaustive: false,
+            assumptions: COMMON_ASSUMPTIONS,
+        },
         #[cfg(feature = "full")]
         Spec {
             id: "C09",
@@ -148,6 +159,15 @@ pub fn all() -> Vec<Spec> {
             run: c17::run,
             level: "exploration",
             rule: "grpc-web response bodies built by the harness's own encoder (0..4 message frames of 0..3000 bytes with flag 0/1, then one 0x80 frame whose block lists generated trailers: values containing ':' and spaces, repeated names, optional space after the colon, grpc-status at any position) are delivered through GrpcWebClientService under 7 cut styles; monitor `allcuts` applies every single cut, every double cut among the first 30 bytes and every double cut around the trailers frame to small bodies; monitor `truncate` cuts small bodies off at every byte. Oracle: data bytes = the message frames, trailers equal as multimap, nothing after the end; truncation strictly inside a frame must produce an error; always: no panic, no Pending without wake-up, inner body not polled >64 times after its end, poll budget. Monitor `request` checks the request direction. Fingerprint = leg|what the cuts hit (+colon, +repeated)|#frames|#trailers|cut style. Non-trivial = at least one message frame and one cut (complete), any truncation strictly inside a frame.",
+            exhaustive: false,
+            assumptions: COMMON_ASSUMPTIONS,
+        },
+        #[cfg(feature = "full")]
+        Spec {
+            id: "C18",
+            run: c18::run,
+            level: "exploration",
+            rule: "sequential monitor: random histories (3..30 ops) over {set, clear, check, watch, next(watcher)} on services {'', 'a', 'b'} through the generated HealthClient over the in-process transport; watchers are polled the way an executor would (only when never polled or woken since their last Pending), then run to quiescence once updates stop. Oracle = sequential model: check = latest set / NOT_FOUND ('' SERVING by default); watch of an unregistered name NOT_FOUND; every reported status is a subsequence of the statuses that registration held since subscription; at quiescence the last report equals the registration's latest status; a cleared registration ends its streams after the unreported final status; a registered one never ends. concurrent monitor: multi-thread runtime, 2-3 writers (set/clear), 2-3 checkers, 1-3 watchers, operations timestamped at the client boundary; per-service Wing-Gong linearizability search against a register model (2 s timeout => inconclusive) plus watch constraints (only set values, last = final status). Fingerprint = leg|history size class|#watchers|#clears (sequential) or task counts (concurrent). Non-trivial = history with at least one watcher.",
             exhaustive: false,
             assumptions: COMMON_ASSUMPTIONS,
         },
